@@ -2455,6 +2455,16 @@ class QuicConnection:
         if delivery != QuicDeliveryState.ACKED:
             connection_id.was_sent = False
 
+    def _on_path_challenge_delivery(
+        self, delivery: QuicDeliveryState, network_path: QuicNetworkPath
+    ) -> None:
+        """
+        Callback when a PATH_CHALLENGE frame is acknowledged or lost.
+        """
+        if delivery != QuicDeliveryState.ACKED and not network_path.is_validated:
+            # send a new challenge
+            network_path.local_challenge_sent = False
+
     def _on_ping_delivery(
         self, delivery: QuicDeliveryState, uids: Sequence[int]
     ) -> None:
@@ -3093,7 +3103,7 @@ class QuicConnection:
                 if not (network_path.is_validated or network_path.local_challenge_sent):
                     challenge = os.urandom(8)
                     self._write_path_challenge_frame(
-                        builder=builder, challenge=challenge
+                        builder=builder, challenge=challenge, network_path=network_path
                     )
                     self._add_local_challenge(
                         challenge=challenge, network_path=network_path
@@ -3500,10 +3510,16 @@ class QuicConnection:
             )
 
     def _write_path_challenge_frame(
-        self, builder: QuicPacketBuilder, challenge: bytes
+        self,
+        builder: QuicPacketBuilder,
+        challenge: bytes,
+        network_path: QuicNetworkPath,
     ) -> None:
         buf = builder.start_frame(
-            QuicFrameType.PATH_CHALLENGE, capacity=PATH_CHALLENGE_FRAME_CAPACITY
+            QuicFrameType.PATH_CHALLENGE,
+            capacity=PATH_CHALLENGE_FRAME_CAPACITY,
+            handler=self._on_path_challenge_delivery,
+            handler_args=(network_path,),
         )
         buf.push_bytes(challenge)
 
